@@ -45,6 +45,26 @@ def d1_root(ctx):
     a = rt[0].value.args
     dval = unparse(a[2]) if len(a) > 2 else (unparse(kwarg(rt[0].value, 'args')) if kwarg(rt[0].value, 'args') is not None else None)
     ctx.check(rule, 'roots.py:find_root#solve', unparse(a[0]) == func_ and dval is not None, 'root of func(x, d_val) in x', 'fsolve called as %s' % unparse(rt[0].value), m.loc(rt[0]))
+    # the start value of the search: the caller's guess, independent of the data (a data-derived start lies outside the domain
+    # of func for members of the quantified families - log / fractional powers with negative d)
+    x0 = a[1] if len(a) > 1 else kwarg(rt[0].value, 'x0')
+    if x0 is not None and len(p) > 2:
+        seen, todo, tainted = set(), [n_.id for n_ in ast.walk(x0) if isinstance(n_, ast.Name)], []
+        while todo:
+            nm = todo.pop()
+            if nm in seen:
+                continue
+            seen.add(nm)
+            if nm == d_:
+                tainted.append(nm)
+            for df in find_def(f, nm):
+                if df.lineno < rt[0].lineno:
+                    todo += [n_.id for n_ in ast.walk(df.value) if isinstance(n_, ast.Name)]
+        dflt = f.args.defaults[-(len(p) - p.index(p[2])):][:1] if len(f.args.defaults) >= len(p) - 2 else []
+        okc = not dflt or (const(dflt[0]) is not None) or (isinstance(dflt[0], ast.Constant) and dflt[0].value is None and bool(find_def(f, p[2])))
+        ctx.check(rule, 'roots.py:find_root#start', not tainted and p[2] in seen and okc, 'the search starts at the caller\'s guess (numeric default), independent of the data',
+                  'the start value `%s` of the root search %s: for log / fractional-power families with negative d the start lies outside the domain of func and no root is found'
+                  % (unparse(x0), 'is derived from the data %s' % d_ if tainted else ('does not come from the parameter %s' % p[2] if p[2] not in seen else 'has the non-numeric default %s' % unparse(dflt[0]))), m.loc(rt[0]))
     dv = find_def(f, dval) if dval else []
     okd = len(dv) == 1 and '.value' in unparse(dv[0].value) and d_ in unparse(dv[0].value)
     ctx.check(rule, 'roots.py:find_root#d_val', okd, 'd_val = central values of d', 'd_val = %s' % [unparse(s.value) for s in dv])
@@ -276,6 +296,8 @@ def run(ctx):
 
 
 SELFTEST = [
+    ('start-from-data', 'pyerrors/roots.py', '    root = scipy.optimize.fsolve(func, guess, d_val)', '    if guess is None:\n        guess = d_val.ravel()[0]\n    root = scipy.optimize.fsolve(func, guess, d_val)', 'C09-D1'),
+    ('benign-start-none-default', 'pyerrors/roots.py', 'def find_root(d, func, guess=1.0, **kwargs):', 'def find_root(d, func, guess=None, **kwargs):\n    if guess is None:\n        guess = 1.0', 'BENIGN'),
     ('derivative-integrals-lose-options', 'pyerrors/integrate.py', "derivint.append(squad(ifunc, bounds[0], bounds[1], **ikwargs)[0])", "derivint.append(squad(ifunc, bounds[0], bounds[1])[0])", 'C09-D2'),
     ('root-sign', 'pyerrors/roots.py', "    deriv = - da / dx", "    deriv = da / dx", 'C09-D1'),
     ('root-inverted', 'pyerrors/roots.py', "    deriv = - da / dx", "    deriv = - dx / da", 'C09-D1'),
